@@ -1,3 +1,4 @@
+// Package vctx: cancellable contexts whose cancellation and observation are scheduling points.
 package vctx
 
 import (
@@ -7,39 +8,88 @@ import (
 	vrt "verif/rt"
 )
 
-type Context = context.Context
-type CancelFunc = context.CancelFunc
-
-func Background() Context { return context.Background() }
-
 type vc struct {
-	context.Context
-	o vrt.Obj
+	parent   context.Context
+	done     chan struct{}
+	err      error
+	deadline time.Time
+	hasDL    bool
+	o        vrt.Obj
+}
+
+func (c *vc) Deadline() (time.Time, bool) {
+	if c.hasDL {
+		return c.deadline, true
+	}
+	return c.parent.Deadline()
+}
+
+func (c *vc) Value(k any) any { return c.parent.Value(k) }
+
+func (c *vc) check() {
+	if c.err != nil {
+		return
+	}
+	if e := c.parent.Err(); e != nil {
+		c.err = e
+		close(c.done)
+		vrt.NoteClosed(c.done)
+		return
+	}
+	if c.hasDL && !vrt.Now().Before(c.deadline) {
+		c.err = context.DeadlineExceeded
+		close(c.done)
+		vrt.NoteClosed(c.done)
+	}
 }
 
 func (c *vc) Done() <-chan struct{} {
-	vrt.Point("ctx.Done", nil)
-	c.o.Touch(1)
-	if c.Context.Err() != nil {
+	if !vrt.InTeardown() {
+		vrt.Point("ctx.Done", nil)
+		c.o.Touch(1)
+	}
+	c.check()
+	if c.err != nil {
 		c.o.Acquire()
 	}
-	return c.Context.Done()
+	return c.done
 }
 
-func WithCancel(parent Context) (Context, CancelFunc) {
-	r, cancel := context.WithCancel(parent)
-	v := &vc{Context: r}
-	return v, func() {
-		if !vrt.InTeardown() {
-			vrt.Point("ctx.cancel", nil)
-			v.o.Touch(2)
-			v.o.Release()
-		}
-		cancel()
+func (c *vc) Err() error {
+	if !vrt.InTeardown() {
+		vrt.Point("ctx.Err", nil)
+		c.o.Touch(3)
+	}
+	c.check()
+	if c.err != nil {
+		c.o.Acquire()
+	}
+	return c.err
+}
+
+func (c *vc) cancel() {
+	if !vrt.InTeardown() {
+		vrt.Point("ctx.cancel", nil)
+		c.o.Touch(2)
+		c.o.Release()
+	}
+	if c.err == nil {
+		c.err = context.Canceled
+		close(c.done)
+		vrt.NoteClosed(c.done)
 	}
 }
 
-func WithTimeout(parent Context, d time.Duration) (Context, CancelFunc) {
-	r, cancel := context.WithCancel(parent)
-	return r, cancel
+func WithCancel(parent context.Context) (context.Context, context.CancelFunc) {
+	c := &vc{parent: parent, done: make(chan struct{})}
+	return c, c.cancel
+}
+
+func WithDeadline(parent context.Context, d time.Time) (context.Context, context.CancelFunc) {
+	c := &vc{parent: parent, done: make(chan struct{}), deadline: d, hasDL: true}
+	return c, c.cancel
+}
+
+func WithTimeout(parent context.Context, d time.Duration) (context.Context, context.CancelFunc) {
+	return WithDeadline(parent, vrt.Now().Add(d))
 }
